@@ -66,7 +66,7 @@ def gen_secret(rng, command, valid=True, words=None):
                 k = int(kind)
                 mn = " ".join((ws * 3)[:k])
             return {"mnemonic": mn, "invalid": kind}, [mn], False
-        kind = rng.choice(["ok", "ok", "ok", "not_in_list", "bad_checksum"])
+        kind = rng.choice(["ok", "ok", "ok", "not_in_list", "bad_checksum", "caps", "inner_caps", "unicode"])
         if kind == "not_in_list":
             ws = mn.split(" ")
             ws[rng.randrange(len(ws))] = "zzzzz"
@@ -74,6 +74,13 @@ def gen_secret(rng, command, valid=True, words=None):
         elif kind == "bad_checksum":
             ws = mn.split(" ")
             ws[-1] = words[(words.index(ws[-1]) + 1) % 2048]
+            mn = " ".join(ws)
+        elif kind in ("caps", "inner_caps", "unicode"):
+            # the library does not validate or normalise words: the CLI must hand the sentence over unchanged
+            ws = mn.split(" ")
+            j = rng.randrange(len(ws))
+            ws[j] = {"caps": ws[j].upper(), "inner_caps": ws[j].capitalize(),
+                     "unicode": ws[j][:1] + "\u0301" + ws[j][1:]}[kind]
             mn = " ".join(ws)
         return {"mnemonic": mn, "variant": kind}, [mn], True
     if command == "from-bip39-seed":
